@@ -304,6 +304,116 @@ theorem gutterField_neutral (digits : Str) (hd : ESC ∉ digits) (w : Nat) (al :
   | none => exact neutral_text _ (pad_noesc _ _ _ _ hd)
   | some u => exact neutral_link u _ (hu u rfl).1 (hu u rfl).2 (pad_noesc _ _ _ _ hd)
 
+/-! ### the executable link function meets what `FieldsOk` asks of `relink` -/
+
+theorem mem_replaceCommit (h : Str) (k : Nat) (tmpl : Str) (c : Char) (hc : c ∈ replaceCommit h k tmpl) :
+    c ∈ h ∨ c ∈ tmpl := by
+  induction tmpl generalizing k with
+  | nil => simp [replaceCommit] at hc
+  | cons d rest ih =>
+    cases k with
+    | succ k =>
+      simp only [replaceCommit] at hc
+      rcases ih k hc with h1 | h1
+      · exact Or.inl h1
+      · exact Or.inr (List.mem_cons_of_mem _ h1)
+    | zero =>
+      simp only [replaceCommit] at hc
+      split at hc
+      · rcases List.mem_append.mp hc with h1 | h1
+        · exact Or.inl h1
+        · rcases ih _ h1 with h2 | h2
+          · exact Or.inl h2
+          · exact Or.inr (List.mem_cons_of_mem _ h2)
+      · rcases List.mem_cons.mp hc with h1 | h1
+        · exact Or.inr (by rw [h1]; exact List.mem_cons_self)
+        · rcases ih _ h1 with h2 | h2
+          · exact Or.inl h2
+          · exact Or.inr (List.mem_cons_of_mem _ h2)
+
+theorem wordRuns_mem (t : Str) (b : Bool) (w : Str) (h : (b, w) ∈ wordRuns t) : ∀ c ∈ w, c ∈ t := by
+  induction t generalizing b w with
+  | nil => simp [wordRuns] at h
+  | cons d rest ih =>
+    cases hr : wordRuns rest with
+    | nil =>
+      simp only [wordRuns, hr, List.mem_singleton, Prod.mk.injEq] at h
+      obtain ⟨_, rfl⟩ := h
+      intro c hc
+      simp only [List.mem_singleton] at hc
+      rw [hc]; exact List.mem_cons_self
+    | cons x more =>
+      obtain ⟨b', r⟩ := x
+      have hr' : ∀ y ∈ wordRuns rest, ∀ c ∈ y.2, c ∈ rest := fun y hy c hc => ih y.1 y.2 hy c hc
+      simp only [wordRuns, hr] at h
+      split at h
+      · rcases List.mem_cons.mp h with h1 | h1
+        · have hw : w = d :: r := (Prod.mk.inj h1).2
+          subst hw
+          intro c hc
+          rcases List.mem_cons.mp hc with h2 | h2
+          · rw [h2]; exact List.mem_cons_self
+          · exact List.mem_cons_of_mem _ (hr' (b', r) (by rw [hr]; exact List.mem_cons_self) c h2)
+        · exact fun c hc => List.mem_cons_of_mem _ (hr' (b, w) (by rw [hr]; exact List.mem_cons_of_mem _ h1) c hc)
+      · rcases List.mem_cons.mp h with h1 | h1
+        · have hw : w = [d] := (Prod.mk.inj h1).2
+          subst hw
+          intro c hc
+          simp only [List.mem_singleton] at hc
+          rw [hc]; exact List.mem_cons_self
+        · exact fun c hc => List.mem_cons_of_mem _ (hr' (b, w) (by rw [hr]; exact h1) c hc)
+
+theorem relinkGo_ok (tmpl : Str) (h1 : ESC ∉ tmpl) (h2 : BEL ∉ tmpl) (n : Nat) (runs : List (Bool × Str))
+    (hr : ∀ x ∈ runs, ESC ∉ x.2) : ∀ p ∈ relinkGo tmpl n runs, PieceOk p := by
+  induction runs generalizing n with
+  | nil => simp [relinkGo]
+  | cons x rest ih =>
+    obtain ⟨b, w⟩ := x
+    have hw : ESC ∉ w := hr (b, w) List.mem_cons_self
+    have hrest : ∀ x ∈ rest, ESC ∉ x.2 := fun x hx => hr x (List.mem_cons_of_mem _ hx)
+    intro p hp
+    unfold relinkGo at hp
+    split at hp
+    · next hcond =>
+      rcases List.mem_cons.mp hp with hp1 | hp1
+      · subst hp1
+        split
+        · have hall : w.all isLowerHex = true := by
+            simp only [Bool.and_eq_true] at hcond
+            exact hcond.1.1.2
+          have hbel : BEL ∉ w := by
+            intro hb
+            have := (List.all_eq_true.mp hall) BEL hb
+            revert this; decide
+          refine ⟨?_, ?_, hw⟩
+          · intro hm
+            rcases mem_replaceCommit w 0 tmpl ESC hm with h | h
+            · exact hw h
+            · exact h1 h
+          · intro hm
+            rcases mem_replaceCommit w 0 tmpl BEL hm with h | h
+            · exact hbel h
+            · exact h2 h
+        · exact hw
+      · exact ih (n + 1) hrest p hp1
+    · rcases List.mem_cons.mp hp with hp1 | hp1
+      · subst hp1; exact hw
+      · exact ih n hrest p hp1
+
+/-- `commitRelink` — the link function the driver runs — returns well-formed pieces for escape-free text, for every URL
+template without ESC / BEL. -/
+theorem commitRelink_ok (tmpl : Option Str) (h : ∀ u, tmpl = some u → ESC ∉ u ∧ BEL ∉ u) (t : Str) (ht : ESC ∉ t) :
+    ∀ p ∈ commitRelink tmpl t, PieceOk p := by
+  unfold commitRelink
+  cases tmpl with
+  | none =>
+    intro p hp
+    simp only [List.mem_singleton] at hp
+    subst hp; exact ht
+  | some u =>
+    exact relinkGo_ok u (h u rfl).1 (h u rfl).2 0 (wordRuns t)
+      (fun x hx hm => ht (wordRuns_mem t x.1 x.2 hx ESC hm))
+
 theorem shape_as_modelled : shapeAsModelled = true := by decide +kernel
 
 /-- **The generated arm table, off a terminal**: when stdout is not a terminal, every arm of `format_blame_metadata` that
